@@ -156,6 +156,8 @@ def guards_decay(sys, amp, N, refs, br, rows=None):
     cR   cond of the true observability block of the reference rows with br+1 block rows (the 'past' factor)
     cX   cond of the true state sequence over the record (its square is the cond of the state Gram matrix)
     part smallest / largest modal participation  ||phi_ref,k|| * ||a_k z_k^n||_2  over the modes
+    kappa = cO * cR * cX^2: conditioning of the covariance-type Hankel matrix O (X X^T) O_ref^T on its range; the
+          observed errors follow eps * kappa (calibrated: kappa <= 1e7 keeps fn within 4e-10 and xi within 6e-9)
     """
     rows = sys._rows(rows)
     cO = cond(sys.obs(rows, br))
@@ -164,7 +166,7 @@ def guards_decay(sys, amp, N, refs, br, rows=None):
     cX = cond(X)
     en = np.sqrt((X[0::2] ** 2 + X[1::2] ** 2).sum(axis=1))                # l2 norm of each modal coordinate
     pr = np.linalg.norm(sys.Phi[[rows[i] for i in refs]], axis=0) * en
-    return {"cO": cO, "cR": cR, "cX": cX, "part": float(pr.min() / pr.max())}
+    return {"cO": cO, "cR": cR, "cX": cX, "part": float(pr.min() / pr.max()), "kappa": cO * cR * cX**2}
 
 
 # ---- oracle: identified poles against the truth ----------------------------------------------------
